@@ -39,16 +39,53 @@ func ctxms(n int) (context.Context, context.CancelFunc) {
 // ---------------------------------------------------------------- cooperative broker
 
 type coop struct {
-	mu     sync.Mutex
-	alias  uint32
-	downs  map[*broker.Session][]uint32
-	nchunk int
+	mu       sync.Mutex
+	alias    uint32
+	downs    map[*broker.Session][]uint32
+	nchunk   int
+	maxDown  atomic.Uint32 // highest downstream alias seen so far (any session)
+	metaSent atomic.Int64
+}
+
+var srcNodes = []string{"src0", "src1", "src2", "src3", "src4", "src5"}
+
+// metaStream sends downstream metadata for every downstream alias that exists or is about to
+// exist (the client hands out aliases in sequence and keeps them across a resume) and every source
+// node, for as long as the session lives: the client registers the source nodes of a downstream
+// one after another - on open and again on every resume - while metadata for the nodes that are
+// already registered keeps arriving on the same alias.
+func (c *coop) metaStream(s *broker.Session) {
+	bt := &message.BaseTime{SessionID: "s", Name: "n", Priority: 1, BaseTime: time.Unix(1700000000, 0)}
+	for i := 0; !s.Done(); i++ {
+		hi := c.maxDown.Load() + 3
+		lo := uint32(1)
+		if hi > 8 {
+			lo = hi - 8
+		}
+		for a := lo; a <= hi; a++ {
+			if err := s.Send(&message.DownstreamMetadata{RequestID: 7001, StreamIDAlias: a, SourceNodeID: srcNodes[(i+int(a))%len(srcNodes)], Metadata: bt}); err != nil {
+				return
+			}
+			c.metaSent.Add(1)
+		}
+		time.Sleep(150 * time.Microsecond)
+	}
+}
+
+func (c *coop) sawDown(a uint32) {
+	for {
+		cur := c.maxDown.Load()
+		if a <= cur || c.maxDown.CompareAndSwap(cur, a) {
+			return
+		}
+	}
 }
 
 func (c *coop) handler(s *broker.Session, m message.Message) {
 	switch v := m.(type) {
 	case *message.ConnectRequest:
 		broker.AcceptConnect(s, v)
+		go c.metaStream(s)
 	case *message.UpstreamOpenRequest:
 		c.mu.Lock()
 		c.alias++
@@ -89,6 +126,7 @@ func (c *coop) handler(s *broker.Session, m message.Message) {
 		c.mu.Lock()
 		c.downs[s] = append(c.downs[s], v.DesiredStreamIDAlias)
 		c.mu.Unlock()
+		c.sawDown(v.DesiredStreamIDAlias)
 		s.Send(&message.DownstreamOpenResponse{RequestID: v.RequestID, AssignedStreamID: uuid.New(), ResultCode: message.ResultCodeSucceeded,
 			ServerTime: time.Unix(1700000000, 0)})
 	case *message.DownstreamResumeRequest:
@@ -106,7 +144,7 @@ func (c *coop) handler(s *broker.Session, m message.Message) {
 		downs := append([]uint32(nil), c.downs[s]...)
 		c.mu.Unlock()
 		for _, a := range downs {
-			s.Send(&message.DownstreamMetadata{RequestID: 7001, StreamIDAlias: a, SourceNodeID: "src",
+			s.Send(&message.DownstreamMetadata{RequestID: 7001, StreamIDAlias: a, SourceNodeID: "src0",
 				Metadata: &message.BaseTime{SessionID: "s", Name: "n", Priority: 1, BaseTime: time.Unix(1700000000, 0)}})
 		}
 	case *message.UpstreamCall:
@@ -233,7 +271,16 @@ func connWorkload(deadline time.Time, seed uint64, wg *sync.WaitGroup) {
 		spawn(func(r *rng.R) {
 			for alive() {
 				ctx, cancel := ctxms(300)
-				down, err := conn.OpenDownstream(ctx, []*message.DownstreamFilter{message.NewDownstreamFilterAllFor("src")},
+				// 3-6 filters of distinct source nodes, with duplicates now and then
+				var filters []*message.DownstreamFilter
+				nf := 3 + r.Intn(4)
+				for i := 0; i < nf; i++ {
+					filters = append(filters, message.NewDownstreamFilterAllFor(srcNodes[i]))
+				}
+				if r.Intn(3) == 0 {
+					filters = append(filters, message.NewDownstreamFilterAllFor(srcNodes[r.Intn(nf)]))
+				}
+				down, err := conn.OpenDownstream(ctx, filters,
 					iscp.WithDownstreamAckFlushInterval(5*time.Millisecond), iscp.WithDownstreamQoS(message.QoSReliable))
 				cancel()
 				if err != nil {
